@@ -1,3 +1,4 @@
 pub use h_core::util;
 pub mod chain;
 pub mod wallet;
+pub mod run;
